@@ -102,7 +102,7 @@ def check(ctx, tree, leaves0, dsl, cfg):  # noqa: C901, PLR0912
 
 
 def run_shard(ctx):
-    extra = (e1.core6_stratum(),) if ctx.tier == 'thorough' else ()
+    extra = (('aliasing', tuple(gen.aliasing_trees())), *((e1.core6_stratum(),) if ctx.tier == 'thorough' else ()))
     e1.drive(ctx, ctx.tier, lambda tree, leaves, dsl, cfg: check(ctx, tree, leaves, dsl, cfg), extra_strata=extra)
 
 
